@@ -680,7 +680,9 @@ CHANNELS = [
      ns_tree_sort, 'order'),
 ]
 
-ATTRS = {'public': 'pubattr', 'refused': 'secattr', 'private': '_privattr'}
+ATTRS = {'public': 'pubattr', 'refused': 'secattr', 'private': '_privattr',
+         # the shortest underscore name
+         'private1': '_'}
 
 
 def site(cid):
@@ -788,6 +790,11 @@ def render(cls, src, client, ns):
 def cases(tier):
     for ch in CHANNELS:
         for kind in ATTRS:
+            if kind == 'private1' and ('expr' in ch[0] or 'expr' in ch[3] or
+                                       '"' in ch[1] and '_' in
+                                       ch[1].split('ATTR')[0][-3:]):
+                # in expressions a bare _ is the namespace object itself
+                continue
             yield {'channel': ch[0], 'kind': kind}
             if 'items' not in ch[3] and (
                     'expr' in ch[3] or ch[0].startswith(('with', 'client-'))):
@@ -811,12 +818,12 @@ def run(case):
     kind = case['kind']
     attr = ATTRS[kind]
     R = st['R1'] if case.get('guard') == 'attr-only' else st['R']
-    if 'private-only' in flags and kind != 'private':
+    if 'private-only' in flags and not kind.startswith('private'):
         res.outcome = 'private-only:n/a'
         return res
     if 'fixed:' in flags:
         # the guarded name is a fixed (string) method name
-        if kind == 'private':
+        if kind.startswith('private'):
             res.outcome = 'fixed:n/a'
             return res
         attr = flags.split('fixed:')[1].split()[0]
